@@ -25,7 +25,10 @@ import (
 )
 
 // Roots are the parser entry points of the property.
-var Roots = []struct{ Pkg, Name string }{
+// Root names one entry point.
+type Root struct{ Pkg, Name string }
+
+var Roots = []Root{
 	{core.PkgSeqio, "GenBankParser"}, {core.PkgSeqio, "FastaParser"}, {core.PkgSeqio, "Scanner.Scan"}, {core.PkgSeqio, "INSDCTableParser"},
 	{core.PkgSeqio, "AsDate"}, {core.PkgGts, "ParseLocation"}, {core.PkgGts, "AsLocation"}, {core.PkgGts, "AsLocator"}, {core.PkgGts, "AsModifier"},
 	{core.PkgGts, "Selector"}, {core.PkgGts, "AsMolecule"}, {core.PkgGts, "AsTopology"}, {core.PkgSeqio, "NewAutoScanner"}, {core.PkgSeqio, "QualifierParser"},
@@ -40,7 +43,7 @@ func repoFn(f *ssa.Function) bool {
 // by signature, every closure a reachable function creates, every function
 // referenced as a value, and the initialisers of referenced package variables
 // (parsers are package-level values built by combinators).
-func Reach(p *core.Prog) (map[*ssa.Function]bool, []string) {
+func Reach(p *core.Prog, roots []Root) (map[*ssa.Function]bool, []string) {
 	reach := map[*ssa.Function]bool{}
 	var work []*ssa.Function
 	var missing []string
@@ -78,7 +81,7 @@ func Reach(p *core.Prog) (map[*ssa.Function]bool, []string) {
 		}
 	}
 	globalsSeen := map[*ssa.Global]bool{}
-	for _, r := range Roots {
+	for _, r := range roots {
 		sp := p.SSAPkgs[r.Pkg]
 		var f *ssa.Function
 		if i := strings.IndexByte(r.Name, '.'); i >= 0 {
